@@ -111,7 +111,7 @@ class FamilyRun:
         cur = a
         nsamp = self.samples if idx == 0 else 0
         while cur < b:
-            for f in (marker,):
+            for f in (marker, marker + ".sum"):
                 if os.path.exists(f):
                     os.remove(f)
             args = ["--family", self.family, "--seed", str(self.seed), "--tier", self.tier, "--from", str(cur),
@@ -122,6 +122,13 @@ class FamilyRun:
                 break
             k, op, tags = read_marker(marker)
             errtext = open(err, "rb").read().decode("utf-8", "replace")
+            # cases the killed invocation had completed before its last partial-summary flush
+            try:
+                ps = json.load(open(marker + ".sum"))
+                merge(local, dict(cases=ps["cases"], events=ps["events"], trivial=ps["trivial"], sigs=ps["sigs"],
+                                  ops=ps["ops"], counters=ps["counters"]))
+            except (OSError, ValueError, KeyError):
+                pass
             if rc == 2 and (k is None):
                 local["harness_errors"].append("harness exit 2: " + tail(errtext, 10))
                 break
@@ -183,7 +190,7 @@ class FamilyRun:
                     merge(local, dict(cases=r["cases"], events=r["events"], trivial=r["trivial"], sigs=r["sigs"],
                                       ops=r["ops"], counters=r["counters"]))
             os.remove(out)
-        for f in (marker, err, err + ".re"):
+        for f in (marker, marker + ".sum", marker + ".sum.tmp", err, err + ".re"):
             if os.path.exists(f):
                 try:
                     os.remove(f)
